@@ -5,6 +5,7 @@ CONSTANTS NP = 1
           Devs = {"Dev_C36_StaleHave"}
           MCLimits = {1}
           MCMsgLen = 1
+          MCNCfg = 3
           MCIgnored = {}
           MCBig = {2}
           Cfgs <- MCCfgs
